@@ -99,6 +99,35 @@ def check_path_to_string(cx, rep, rule='PATH-STRING'):
     (rep.ok(rule, f.qname + '|token string without spaces') if ok else rep.bad(rule, f.qname, 'shape', 'a path is no longer printed as its token string with the spaces removed (`Enum::Variant`)', f.file, f.line))
 
 
+def string_field_of(cx, fn_or_name, module_path=None):
+    """member key (index of a tuple struct, name otherwise) of the single `String` field of a struct"""
+    name = fn_or_name if isinstance(fn_or_name, str) else fn_or_name.self_ty
+    mp = module_path if module_path is not None else (None if isinstance(fn_or_name, str) else tuple(fn_or_name.module.path))
+    for (m, n), it in cx.crate.types.items():
+        if n == name and it['k'] == 'Struct' and (mp is None or tuple(m) == tuple(mp)):
+            fs = it['fields']['fields']
+            hits = [(i, f) for i, f in enumerate(fs) if ty_s(f['ty']).strip() == 'String']
+            if len(hits) == 1:
+                i, f = hits[0]
+                return f['name'] if f.get('name') else i
+    return None
+
+
+def ctor_string_args(cx, f, key):
+    """terms of the String component at every construction of Self in function f"""
+    fw = cx.fw(f)
+    tm = cx.gm.terms_of(fw)
+    out = []
+    for ev in fw.events:
+        if ev.kind == 'call' and ev.path in ('Self', f.self_ty) and isinstance(key, int) and len(ev.args) > key:
+            out.append(tm.term(ev.args[key], ev.scope))
+        if ev.kind == 'struct' and es(ev.node['path'] if isinstance(ev.node.get('path'), dict) and 'k' in ev.node['path'] else {'k': 'Path', 'path': ev.node['path']}) in ('Self', f.self_ty):
+            for fld in ev.node['fields']:
+                if str(fld['member']) == str(key):
+                    out.append(tm.term(fld['expr'], ev.scope))
+    return out
+
+
 def check_hash_type_tokens(cx, rep, rule='SUM-INTO'):
     tt = [g for g in cx.crate.fns if g.self_ty == 'HashType' and g.name == 'to_tokens']
     ok = False
@@ -112,7 +141,7 @@ def check_hash_type_tokens(cx, rep, rule='SUM-INTO'):
         others = [ev for ev in fw.events if ev.kind in ('macro',) and 'tmpl' in ev.mac]
         if len(ext) == 1 and len(ext[0].args) == 1 and not ext[0].ctx and not others:
             a = tm.term(ext[0].args[0], ext[0].scope)
-            src = ('field', ('param', names[0]), 0)
+            src = ('field', ('param', names[0]), string_field_of(cx, g))
             ok = a in (('unwrap', ('call', 'proc_macro2::TokenStream::from_str', src)), ('unwrap', ('call', 'TokenStream::from_str', src)),
                        ('unwrap', ('mcall', src, 'parse')))
     if ok:
@@ -124,12 +153,14 @@ def check_hash_type_tokens(cx, rep, rule='SUM-INTO'):
     for g in fr:
         ps = [a for a in g.sig['inputs'] if a['k'] == 'Typed']
         t = ps[0]['ty']
-        gt = fn_term(cx, g)
+        p0 = [p_[0] for p_ in g.params()][:1]
         if t['k'] == 'Ref':
-            good = gt in (('call', 'Self', ('mcall', ('mcall', P(0), 'into_token_stream'), 'to_string'), ('mcall', P(0), 'span')),
-                          ('call', 'Self', ('mcall', ('mcall', P(0), 'to_token_stream'), 'to_string'), ('mcall', P(0), 'span')),
-                          ('call', 'HashType', ('mcall', ('mcall', P(0), 'into_token_stream'), 'to_string'), ('mcall', P(0), 'span')))
+            key = string_field_of(cx, g)
+            args = ctor_string_args(cx, g, key)
+            good = len(args) == 1 and p0 and args[0] in (('mcall', ('mcall', ('param', p0[0]), 'into_token_stream'), 'to_string'),
+                                                         ('mcall', ('mcall', ('param', p0[0]), 'to_token_stream'), 'to_string'))
         else:
+            gt = fn_term(cx, g)
             good = gt in (('call', 'Self::from', P(0)), ('call', 'HashType::from', P(0)))
         n += 1
         if good:
